@@ -6,7 +6,7 @@ import json
 from typing import Any
 
 from harness import c02_util as U
-from harness.common import Ck, coq_list, coq_str, parse_coq_N_list, parse_coq_nested
+from harness.common import VERIF, Ck, coq_list, coq_str, parse_coq_N_list, parse_coq_nested
 from translate import c02_tables
 
 MANIFEST = dict(
@@ -175,6 +175,13 @@ def report(ck: Ck, s: str, ml: bool, why: str, ctx: dict | None = None) -> None:
 def search(ck: Ck, escalate: bool) -> None:
     import random
     n = 5 if (ck.thorough or escalate or ck.tie_broken) else 4
+    # (0) corpus first
+    for s in json.loads((VERIF / 'corpus' / 'C02' / 'strings.json').read_text()):
+        for ml in (False, True):
+            ck.count('search_corpus')
+            r = oracle(s, ml) or kv_oracle(s, ml)
+            if r is not None:
+                report(ck, s, ml, r)
     # (a) exhaustive over the escape alphabet
     for ml in (False, True):
         for s in U.strings_upto(ESC_ALPHA, n):
@@ -455,5 +462,11 @@ def replay(data: dict) -> int:
         except Exception as e:  # noqa: BLE001
             print('tokenizer raised', repr(e))
         res = oracle(s, ml, **kw)
+    mv = U.model_eval([f'escape gen_tables {"true" if ml else "false"} {coq_str(s)}',
+                       f'tok_case {BITS_ESC} (DQ :: escape gen_tables {"true" if ml else "false"} {coq_str(s)} ++ [DQ])'])
+    if mv is not None:
+        me = ''.join(map(chr, parse_coq_N_list(mv[0])))
+        t = parse_coq_N_list(mv[1])
+        print(f'model escape = {me!r} (equal to escape_text: {me == esc}); model tokens of DQ+escape+DQ: {U.decode_results(t[2 + t[1]:])[:3]}')
     print('property holds on this input' if res is None else f'VIOLATED: {res}')
     return 0 if res is None else 1
